@@ -19,6 +19,7 @@ import (
 	"github.com/jdillenkofer/pithos/internal/storage/database"
 	partOutboxEntry "github.com/jdillenkofer/pithos/internal/storage/database/repository/partoutboxentry"
 	"github.com/jdillenkofer/pithos/internal/storage/metadatapart/partstore"
+	"github.com/jdillenkofer/pithos/internal/verifhook"
 	"github.com/oklog/ulid/v2"
 	"github.com/prometheus/client_golang/prometheus"
 )
@@ -268,6 +269,7 @@ func (obs *outboxPartStore) maybeProcessOutboxEntries(ctx context.Context) {
 			break
 		}
 
+		_ = verifhook.Hit("partoutbox.after-claim")
 		stopHeartbeat := obs.startPartOutboxHeartbeat(ctx, entry)
 		switch entry.Operation {
 		case partOutboxEntry.PutPartOperation:
@@ -286,6 +288,7 @@ func (obs *outboxPartStore) maybeProcessOutboxEntries(ctx context.Context) {
 			return
 		}
 
+		_ = verifhook.Hit("partoutbox.after-replay")
 		// The external mutation has completed, so remove the durable entry in a
 		// separate, short write transaction. A lost lease leaves the entry for its
 		// new owner to replay; tx-free-capable stores make those replays idempotent.
